@@ -72,7 +72,7 @@ RULE = ("dict / OrderedDict / MappingProxyType / custom Mapping / dict subclass;
         "without str mix-in (Enum, IntEnum: nothing is yielded); lists / tuples / deques / sets / frozensets / list and tuple subclasses / custom "
         "Sequence / custom re-iterable of 0-4 generated elements (2-tuples, 2-lists, 2-character strings, 2-key dicts, 2-field "
         "named tuples, other lengths, scalars, instances, sets, bytes; homogeneous or mixed so that the first element decides); "
-        "one-shot iterators of the same (list iterator, generator, custom iterator, map object, tee); str / bytes / bytearray / "
+        "one-shot iterators of the same (list iterator, generator, custom iterator, one with __len__ and __contains__, map object, tee); str / bytes / bytearray / "
         "range / dict views; for the correspondence only: scalars (None, bool, int, float, Decimal, Fraction, "
         "PurePosixPath, Pattern, date, timedelta: TypeError from both functions). Every case is built fresh per call and run twice, in a random order, in a forked child (cold and "
         "warm strategy cache). non-trivial = non-empty input")
@@ -412,6 +412,16 @@ class CustomIter:
         return self._xs[self._i - 1]
 
 
+class SizedIter(CustomIter):
+    """one-shot that reports what is left (a result cursor, a progress wrapper): a Collection by its methods, still not re-iterable"""
+
+    def __len__(self):
+        return len(self._xs) - self._i
+
+    def __contains__(self, e):
+        return e in self._xs[self._i:]
+
+
 _DYN = {}
 
 
@@ -454,7 +464,7 @@ def _gen(xs):
 WRAPS = {
     "OrderedDict": ("d", collections.OrderedDict), "MappingProxyType": ("d", types.MappingProxyType),
     "CustomMapping": ("d", CustomMapping), "DictSubclass": ("d", DictSubclass),
-    "generator": ("it", lambda it: _gen(list(it))), "CustomIter": ("it", CustomIter),
+    "generator": ("it", lambda it: _gen(list(it))), "CustomIter": ("it", CustomIter), "SizedIter": ("it", SizedIter),
     "map": ("it", lambda it: map(lambda e: e, list(it))), "tee": ("it", lambda it: itertools.tee(it)[0]),
     "ListSubclass": ("l", ListSubclass), "CustomSeq": ("l", CustomSeq), "CustomIterable": ("l", CustomIterable),
     "TupleSubclass": ("t", TupleSubclass),
